@@ -19,6 +19,7 @@ from mc.recorders import make_model, score_log
 from mc.ref.tdc import ref_qvalues
 
 PROPERTY = "C07"
+SIZE_MODULES = ['mokapot.brew', 'mokapot.dataset', 'mokapot.model']  # see mc.runner._sized_passes
 LEVEL = "exploration"
 RULE = (
     "case = (dataset: multiplicity vector + scan offset, label encoding 1/-1 | 1/0 | bool, best feature higher- or "
